@@ -86,7 +86,7 @@ class TestRecording:
     # ------------------------------------------------------------------ projection
     def project(self, oplabel):
         tw = _twin()
-        post = {"vol": [], "comp": [], "hn": [], "hsame": [], "last": []}
+        post = {"vol": [], "comp": [], "hn": [], "hsame": [], "last": [], "haswv": False}
         for k, lw in enumerate(self.labware):
             vol = tw.proj_vol(lw, UNIT)
             post["vol"].append(vol)
